@@ -17,13 +17,14 @@ from src import utils
 
 
 class SymRandom:
-    def __init__(self, eng, words=None, max_draws=400, max_sym_draws=None):
+    def __init__(self, eng, words=None, max_draws=400, max_sym_draws=None, sym_filter=None):
         self.eng = eng
         self.words = list(words or ['aa', 'bb', 'cc', 'dd', 'ee', 'ff', 'gg', 'hh'])
         self.pool = list(self.words)
         self.draws = 0
         self.sym_draws = 0
         self.max_sym_draws = max_sym_draws   # after this many symbolic draws: first element / False / lower bound
+        self.sym_filter = sym_filter         # choice(seq) is symbolic only when sym_filter(seq) holds (others: first element)
         self.max_draws = max_draws
         self.log = []
         self.word_mode = 'first'      # 'first': deterministic fresh word (names are interchangeable); 'any'
@@ -48,7 +49,10 @@ class SymRandom:
         seq = list(choices)
         if not seq:
             raise IndexError('Cannot choose from an empty sequence')
-        i = 0 if (len(seq) > 1 and self._fixed()) else self.eng.choice_index(len(seq), 'choice')
+        if len(seq) > 1 and self.sym_filter is not None and not self.sym_filter(seq):
+            i = 0
+        else:
+            i = 0 if (len(seq) > 1 and self._fixed()) else self.eng.choice_index(len(seq), 'choice')
         self.log.append(('choice', len(seq), i))
         return seq[i]
 
